@@ -45,9 +45,12 @@ def to_dtype(v, dtype):
         if signed and v >= 2**(bits - 1):
             v -= 2**bits
         return v
-    if dtype == "float32":
-        return struct.unpack("<f", struct.pack("<f", float(v)))[0]
-    return float(v)
+    try:
+        if dtype == "float32":
+            return struct.unpack("<f", struct.pack("<f", float(v)))[0]
+        return float(v)
+    except (OverflowError, struct.error):
+        raise Unsupported("value does not fit the float type")
 
 
 class Machine:
